@@ -257,7 +257,8 @@ Proof.
   inversion K as [| | ? ? KB D]; subst. cbn [cmd_op cmd_built_leaves].
   rewrite (copy_nodes_leaves env r 1%Z).
   rewrite copy_op_leaves_perm by (apply depth_ok_op_listable; [apply run_prog_wf_op | exact D]).
-  apply Permutation_map. rewrite run_prog_leaves. apply Permutation_flat_map_pointwise.
+  apply Permutation_map. change (run_cmds env body []) with (run_prog env body).
+  rewrite run_prog_leaves. apply Permutation_flat_map_pointwise.
   rewrite Forall_forall in *. intros c Hc. apply IH; auto.
 Qed.
 
@@ -311,7 +312,7 @@ Lemma in_filter_map_inv {A B} (f : A -> option B) l y : In y (filter_map f l) ->
 Proof. apply in_filter_map. Qed.
 
 Lemma size_ok_ops r ns : length ns <= max_layers -> Forall size_ok (map n_op ns) -> size_ok (OComp r ns).
-Proof. intros H F. constructor; [exact H|]. apply Forall_map in F. exact F. Qed.
+Proof. intros H F. constructor; [exact H|]. exact (proj1 (Forall_map n_op size_ok ns) F). Qed.
 
 Lemma copy_op_size_ok env o : wf_op o -> size_ok o -> size_ok (copy_op env o).
 Proof.
@@ -338,7 +339,7 @@ Qed.
 
 Lemma small_cmd_size_ok env c : small_cmd c -> size_ok (cmd_op env c).
 Proof.
-  induction c as [l r | l t | r body IH] using cmd_ind'; intros S; try constructor.
+  induction c as [l r | l t | r body IH] using cmd_ind'; intros S; [constructor | constructor | ].
   inversion S as [| | ? ? SL SB]; subst. cbn [cmd_op].
   assert (X : size_ok (copy_op env (OComp r (run_prog env body)))).
   { apply copy_op_size_ok; [apply run_prog_wf_op|]. apply run_prog_size_ok; [apply max_layers_bound; exact SL|].
